@@ -31,33 +31,52 @@ func init() { engine.Register(&check{}) }
 func (c *check) ID() string { return "C02" }
 
 // group = a family of units: skeletons × widths × all deviation sets of exactly Level
-// deviations, each swept over Sweep.
+// deviations taken from Menu (at least one of them from Need when Need is not empty), each swept
+// over Sweep.
 type group struct {
 	Name      string
 	Skeletons [][]blockSpec
 	Widths    []int
 	Level     int
-	Menu      int // number of menu entries used
+	Menu      []int // menu entries used
+	Need      []int // when not empty: every deviation set has at least one entry of Need
 	Sweep     []pageCfg
-	devsets   map[int][][]dev // by number of blocks
+	devsets   [][][]dev // by skeleton
 	first     int64
 	count     int64
 	perSkel   []int64
 }
 
-// devSets enumerates all sets of exactly level deviations over nb blocks: sorted by
-// (slot, menu index), at most one entry of a group per block.
-func devSets(nb, level, m int) [][]dev {
+// devSets enumerates all sets of exactly level deviations over the blocks of a skeleton: sorted by
+// (slot, menu index), at most one entry of a group per block; entries for the inner element only on
+// blocks that have one.
+func devSets(sk []blockSpec, level int, m, need []int) [][]dev {
 	var all []dev
-	for s := 0; s < nb; s++ {
-		for d := 0; d < m; d++ {
+	for s, b := range sk {
+		for _, d := range m {
+			if menu[d].Target == tInner && !hasInner(b.Kind) {
+				continue
+			}
 			all = append(all, dev{s, d})
 		}
+	}
+	needed := map[int]bool{}
+	for _, d := range need {
+		needed[d] = true
 	}
 	var out [][]dev
 	var rec func(start int, cur []dev)
 	rec = func(start int, cur []dev) {
 		if len(cur) == level {
+			if len(need) > 0 {
+				ok := false
+				for _, p := range cur {
+					ok = ok || needed[p.D]
+				}
+				if !ok {
+					return
+				}
+			}
 			out = append(out, append([]dev(nil), cur...))
 			return
 		}
@@ -80,6 +99,8 @@ func devSets(nb, level, m int) [][]dev {
 var (
 	heightsAll = []int{10, 20, 30, 40, 50, 45}
 	widthsAll  = []int{30, 50, 120}
+	// 80px: a float of one word fits beside two words (50px: it has to wait for the next line)
+	widthsExt  = []int{30, 50, 80, 120}
 	wordCounts = []int{1, 3, 5, 9}
 )
 
@@ -93,57 +114,102 @@ func sweep(heights []int, ow [][2]int) []pageCfg {
 	return out
 }
 
-var owFull = [][2]int{{1, 1}, {1, 2}, {1, 3}, {2, 1}, {2, 2}, {2, 3}, {3, 1}, {3, 2}, {3, 3}}
+var (
+	owFull = [][2]int{{1, 1}, {1, 2}, {1, 3}, {2, 1}, {2, 2}, {2, 3}, {3, 1}, {3, 2}, {3, 3}}
+	owLite = [][2]int{{1, 1}, {2, 2}, {1, 3}, {3, 1}}
+)
 
-func (c *check) plan(tier string) {
-	full := sweep(heightsAll, owFull)
-	var one, two, three [][]blockSpec
-	for k := 0; k < nKinds; k++ {
+// skeletonLists builds the skeleton families over the kinds [k0,k1) × the kinds [0,k1) (every
+// skeleton has at least one block of a kind >= k0).
+func skeletonLists(k0, k1 int) (one, two, three [][]blockSpec) {
+	for k := k0; k < k1; k++ {
 		for _, n := range wordCounts {
 			one = append(one, []blockSpec{{k, n}})
 		}
 	}
-	for k1 := 0; k1 < nKinds; k1++ {
-		for k2 := 0; k2 < nKinds; k2++ {
+	for ka := 0; ka < k1; ka++ {
+		for kb := 0; kb < k1; kb++ {
+			if ka < k0 && kb < k0 {
+				continue
+			}
 			for _, nn := range [][2]int{{3, 5}, {9, 3}, {1, 9}, {5, 1}} {
-				two = append(two, []blockSpec{{k1, nn[0]}, {k2, nn[1]}})
+				two = append(two, []blockSpec{{ka, nn[0]}, {kb, nn[1]}})
 			}
 		}
 	}
-	for k := 0; k < nKinds; k++ {
+	for k := k0; k < k1; k++ {
 		three = append(three, []blockSpec{{kP, 3}, {k, 5}, {kP, 3}}, []blockSpec{{k, 9}, {kDivP, 3}, {k, 1}})
 	}
+	return
+}
+
+func (c *check) plan(tier string) {
+	full := sweep(heightsAll, owFull)
+	lite := sweep(heightsAll, owLite)
+	one, two, three := skeletonLists(0, nKinds)
 	all := append(append(one, two...), three...)
+	one, two, three = skeletonLists(nKinds, nKindsAll)
+	allExt := append(append(one, two...), three...)
 	primary := [][]blockSpec{{{kP, 5}, {kDivP, 5}}}
 	secondary := [][]blockSpec{{{kP, 3}, {kTable, 9}}}
 	kinds := [][]blockSpec{{{kP, 5}, {kDivP, 5}}, {{kP, 3}, {kTable, 9}}, {{kUL, 5}, {kP, 3}}, {{kSpans, 9}, {kP, 3}}, {{kP, 9}}, {{kTable, 5}},
 		{{kP, 1}, {kP, 5}, {kDivP, 3}}, {{kDivP, 9}}, {{kUL, 9}}, {{kTable, 9}, {kP, 3}}}
 	kindsT := append(append([][]blockSpec(nil), kinds...), []blockSpec{{kUL, 5}, {kSpans, 5}})
+	// second generation: inline structures (a span that ends with a span, glued spans, footnotes)
+	kindsExt := [][]blockSpec{{{kGlue, 5}, {kP, 3}}, {{kP, 3}, {kGlue, 9}}, {{kGlue, 3}}, {{kSpans, 3}, {kP, 3}}, {{kSpans, 1}},
+		{{kNote, 3}, {kNote, 3}}, {{kP, 3}, {kNote, 5}}, {{kNote, 9}}}
+	kindsBoth := append(append([][]blockSpec(nil), kinds...), kindsExt...)
+	primaryExt := [][]blockSpec{{{kGlue, 5}, {kDivP, 5}}}
+	// a flow of four blocks: room for an out-of-flow block between two in-flow siblings, before a block with an avoided break
+	sandwich := [][]blockSpec{{{kP, 1}, {kP, 1}, {kP, 1}, {kP, 3}}}
+	menuSandwich := menuNamed("break-before-page", "break-before-avoid", "break-before-left", "break-after-page", "break-after-avoid",
+		"break-after-left", "break-inside-avoid", "float", "absolute", "fixed")
+	menuQ := append(append([]int(nil), menuGen1Quick...), menuGen2...)
 	if tier == "quick" {
 		c.groups = []*group{
-			{Name: "L0-all", Skeletons: all, Widths: widthsAll, Level: 0, Menu: nMenuQuick, Sweep: full},
-			{Name: "L1-kinds", Skeletons: kinds, Widths: widthsAll, Level: 1, Menu: nMenuQuick, Sweep: full},
-			{Name: "L2-primary", Skeletons: primary, Widths: []int{50}, Level: 2, Menu: nMenuQuick, Sweep: full},
-			{Name: "L2-secondary", Skeletons: secondary, Widths: []int{50}, Level: 2, Menu: nMenuQuick, Sweep: full},
+			{Name: "L0-all", Skeletons: all, Widths: widthsAll, Level: 0, Menu: menuGen1Quick, Sweep: full},
+			{Name: "L0-inline", Skeletons: allExt, Widths: widthsExt, Level: 0, Menu: menuGen1Quick, Sweep: full},
+			{Name: "L1-kinds", Skeletons: kinds, Widths: widthsAll, Level: 1, Menu: menuGen1Quick, Sweep: full},
+			{Name: "L1-inline-kinds", Skeletons: kindsExt, Widths: widthsExt, Level: 1, Menu: menuGen1Quick, Sweep: full},
+			{Name: "L1-pseudo-inner", Skeletons: kindsBoth, Widths: widthsExt, Level: 1, Menu: menuGen2, Sweep: full},
+			{Name: "L2-primary", Skeletons: primary, Widths: []int{50}, Level: 2, Menu: menuGen1Quick, Sweep: full},
+			{Name: "L2-secondary", Skeletons: secondary, Widths: []int{50}, Level: 2, Menu: menuGen1Quick, Sweep: full},
+			{Name: "L2-pseudo-inner", Skeletons: primaryExt, Widths: []int{50}, Level: 2, Menu: menuQ, Need: menuGen2, Sweep: lite},
+			{Name: "L2-four-blocks", Skeletons: sandwich, Widths: []int{50}, Level: 2, Menu: menuSandwich, Sweep: lite},
 		}
 	} else {
 		c.groups = []*group{
-			{Name: "L0-all", Skeletons: all, Widths: widthsAll, Level: 0, Menu: len(menu), Sweep: full},
-			{Name: "L1-all", Skeletons: all, Widths: widthsAll, Level: 1, Menu: len(menu), Sweep: full},
-			{Name: "L2-kinds", Skeletons: kindsT, Widths: widthsAll, Level: 2, Menu: len(menu), Sweep: full},
-			{Name: "L3-primary", Skeletons: primary, Widths: []int{50}, Level: 3, Menu: nMenuQuick, Sweep: full},
+			{Name: "L0-all", Skeletons: all, Widths: widthsAll, Level: 0, Menu: menuGen1, Sweep: full},
+			{Name: "L0-inline", Skeletons: allExt, Widths: widthsExt, Level: 0, Menu: menuGen1, Sweep: full},
+			{Name: "L1-all", Skeletons: all, Widths: widthsAll, Level: 1, Menu: menuGen1, Sweep: full},
+			{Name: "L1-inline-all", Skeletons: allExt, Widths: widthsExt, Level: 1, Menu: menuAll, Sweep: full},
+			{Name: "L1-pseudo-inner", Skeletons: all, Widths: widthsAll, Level: 1, Menu: menuGen2, Sweep: full},
+			{Name: "L2-kinds", Skeletons: kindsT, Widths: widthsAll, Level: 2, Menu: menuGen1, Sweep: full},
+			{Name: "L2-pseudo-inner", Skeletons: kindsBoth, Widths: []int{50, 80}, Level: 2, Menu: menuAll, Need: menuGen2, Sweep: lite},
+			{Name: "L2-four-blocks", Skeletons: sandwich, Widths: widthsAll, Level: 2, Menu: menuSandwich, Sweep: full},
+			{Name: "L3-primary", Skeletons: primary, Widths: []int{50}, Level: 3, Menu: menuGen1Quick, Sweep: full},
 		}
 	}
 	var n int64
+	cache := map[string][][]dev{}
 	for _, g := range c.groups {
-		g.devsets = map[int][][]dev{}
 		g.first = n
 		for _, s := range g.Skeletons {
-			nb := len(s)
-			if g.devsets[nb] == nil {
-				g.devsets[nb] = devSets(nb, g.Level, g.Menu)
+			key := fmt.Sprint(len(s))
+			for _, b := range s {
+				if hasInner(b.Kind) {
+					key += "i"
+				} else {
+					key += "-"
+				}
 			}
-			k := int64(len(g.devsets[nb]) * len(g.Widths))
+			ds, ok := cache[g.Name+key]
+			if !ok {
+				ds = devSets(s, g.Level, g.Menu, g.Need)
+				cache[g.Name+key] = ds
+			}
+			g.devsets = append(g.devsets, ds)
+			k := int64(len(ds) * len(g.Widths))
 			g.perSkel = append(g.perSkel, k)
 			g.count += k
 		}
@@ -162,22 +228,22 @@ func (c *check) Init(tier string, seed int64) engine.Space {
 	var gs []map[string]any
 	for _, g := range c.groups {
 		gs = append(gs, map[string]any{"group": g.Name, "skeletons": len(g.Skeletons), "widths_px": g.Widths, "deviations_exactly": g.Level,
-			"menu_entries": g.Menu, "page_configs_per_document": len(g.Sweep), "documents": g.count, "renders": g.count * int64(len(g.Sweep)+1)})
+			"menu_entries": len(g.Menu), "page_configs_per_document": len(g.Sweep), "documents": g.count, "renders": g.count * int64(len(g.Sweep)+1)})
 	}
 	var mn []string
 	for _, m := range menu {
-		mn = append(mn, m.CSS)
+		mn = append(mn, m.where())
 	}
 	return engine.Space{
 		Units: c.units, Chunk: 2, Level: "model_checking", CaseCPUs: 10,
 		Rule: "one unit = one document (block skeleton × page width × set of deviations) rendered on one 10000px page and on every page configuration of the group's sweep (page height × orphans × widows); one state = one render; groups are ordered by deviation level (simplest first); a state is non-trivial when the paged render produced at least 2 pages, so that content actually crossed a page break",
 		Bounds: map[string]any{"groups": gs, "block_kinds": kindName, "words_per_block": wordCounts, "page_heights_px": heightsAll,
-			"page_widths_px": widthsAll, "orphans_widows": owFull, "deviation_menu": mn, "reference_selftest": ref},
+			"page_widths_px": widthsExt, "orphans_widows": owFull, "deviation_menu": mn, "reference_selftest": ref},
 		Assumptions: []string{
 			"all block sizes are automatic; explicit heights, RTL and hyphenation are outside the alphabet",
 			"text is made of distinct two-letter ASCII words in the Ahem font (10px/1): every letter occurs once in a document",
 			"order is asserted inside a flow only (main flow; each float, absolutely positioned box, running/fixed element and table cell is a flow of its own)",
-			"list markers are generated content: they take part in the draw-call clauses only",
+			"list markers, footnote calls and footnote markers are counters: they take part in the draw-call clauses only; ::before/::after text is rendered text of its element's flow (a counter(pages) value is compared as a number of any value)",
 		},
 	}
 }
@@ -194,7 +260,7 @@ func (c *check) decode(u int64) (*group, docSpec) {
 				continue
 			}
 			sk := g.Skeletons[i]
-			ds := g.devsets[len(sk)]
+			ds := g.devsets[i]
 			wi := int(r) % len(g.Widths)
 			di := int(r) / len(g.Widths)
 			return g, docSpec{Blocks: sk, Devs: ds[di], W: g.Widths[wi]}
@@ -207,7 +273,7 @@ func (c *check) Describe(u int64) any {
 	g, d := c.decode(u)
 	var devs []string
 	for _, v := range d.Devs {
-		devs = append(devs, fmt.Sprintf("block %d: %s", v.Slot, menu[v.D].CSS))
+		devs = append(devs, fmt.Sprintf("block %d: %s", v.Slot, menu[v.D].where()))
 	}
 	var bl []string
 	for _, b := range d.Blocks {
@@ -284,6 +350,9 @@ func evaluate(res *render.Result, fm *flowMap) verdict {
 	for _, key := range fm.order {
 		f := fm.flows[key]
 		o := obs[key]
+		if f.Open {
+			continue
+		}
 		if !f.Repeat {
 			got := o.all()
 			v.FlowText[key] = got
